@@ -97,12 +97,12 @@ RECURSIVE BitsOfLimb(_)
 BitsOfLimb(x) == IF x = 0 THEN 0 ELSE 1 + BitsOfLimb(x \div 2)
 NumBits(a) == IF Len(a) = 0 THEN 0 ELSE 16 * (Len(a) - 1) + BitsOfLimb(a[Len(a)])
 
-RECURSIVE P2(_)
-P2(k) == IF k = 0 THEN 1 ELSE 2 * P2(k-1)       \* k <= 15
+RECURSIVE BnP2(_)
+BnP2(k) == IF k = 0 THEN 1 ELSE 2 * BnP2(k-1)       \* k <= 15
 
 (* bit i (0 = least significant) *)
 Bit(a, i) == LET l == (i \div 16) + 1
-             IN IF l > Len(a) THEN 0 ELSE (a[l] \div P2(i % 16)) % 2
+             IN IF l > Len(a) THEN 0 ELSE (a[l] \div BnP2(i % 16)) % 2
 
 (* binary long division: returns <<quotient bits processed into q, remainder>> *)
 RECURSIVE DivRemH(_,_,_,_,_)
@@ -137,7 +137,7 @@ InvMod(a, m) == PowMod(a, Sub(m, <<2>>), m)
 
 (* a * 2^k, floor(a / 2^k) *)
 RECURSIVE Pow2(_)
-Pow2(k) == IF k < 16 THEN <<P2(k)>> ELSE <<0>> \o Pow2(k - 16)
+Pow2(k) == IF k < 16 THEN <<BnP2(k)>> ELSE <<0>> \o Pow2(k - 16)
 ShiftL(a, k) == Mul(a, Pow2(k))
 ShiftR(a, k) == Div(a, Pow2(k))
 (* a mod 2^k *)
